@@ -631,10 +631,32 @@ class PublicKey:
             # create message digest
             message_digest = hashlib.sha256(hashlib.sha256(message_magic).digest()).digest()
 
-            recovered_keys = VerifyingKey.from_public_key_recovery_with_digest(
-                signature, message_digest, curve=SECP256k1, hashfunc = hashlib.sha256, sigdecode=sigdecode_string
-            )
-            self.key = recovered_keys[recovery_id]
+            if recovery_id < 2:
+                recovered_keys = VerifyingKey.from_public_key_recovery_with_digest(
+                    signature, message_digest, curve=SECP256k1, hashfunc = hashlib.sha256, sigdecode=sigdecode_string
+                )
+                self.key = recovered_keys[recovery_id]
+            else:
+                # recovery ids 2 and 3: R's x coordinate is r + n (python-ecdsa only lists
+                # the two candidates with x = r); same computation as in verify_message
+                r, s = sigdecode_string(signature, Secp256k1Params._order)
+                x = r + Secp256k1Params._order
+                if x >= Secp256k1Params._p:
+                    raise ValueError("Invalid recovery ID for this signature")
+                y_values = sqrt_mod((x**3 + 7) % Secp256k1Params._p, Secp256k1Params._p, True)
+                if not y_values:
+                    raise ValueError("Invalid recovery ID for this signature")
+                if (y_values[0] - recovery_id) % 2 == 0:  # type: ignore
+                    y = y_values[0]  # type: ignore
+                else:
+                    y = y_values[1]  # type: ignore
+                R = ellipticcurve.Point(Secp256k1Params._curve, x, y, Secp256k1Params._order)
+                minus_e = -b_to_i(message_digest) % Secp256k1Params._order
+                inv_r = numbertheory.inverse_mod(r, Secp256k1Params._order)
+                Q = inv_r * (s * R + minus_e * Secp256k1Params._G)
+                key = VerifyingKey.from_public_point(Q, curve=SECP256k1)
+                key.verify_digest(signature, message_digest, sigdecode=sigdecode_string)
+                self.key = key
         else:
             raise TypeError("Either 'hex_str' or ('message', 'signature') must be provided.")
 
